@@ -745,7 +745,8 @@ type runState struct {
 	suppressed int
 }
 
-var exKinds = []string{"ref", "ty"}
+// two real kinds of which one is a textual prefix of the other
+var exKinds = []string{"ty", "typaram"}
 
 func exhaustiveAlphabet() []Op {
 	var ops []Op
@@ -767,7 +768,8 @@ func exhaustiveAlphabet() []Op {
 	return ops
 }
 
-var rndEdgeKinds = []string{"ref", "ty", "fld", "val"}
+// every kind the package declares (several pairs share a textual prefix: ty/typaram, re-f/re-t, param/...)
+var rndEdgeKinds = []string{"ref", "ty", "typaram", "fld", "val", "ret", "recv", "param", "cnt", "inst", "init", "alias", "embed", "doc", "call"}
 
 func randomOp(r *rand.Rand) Op {
 	k := func() int { return r.Intn(nDecl) }
@@ -859,7 +861,7 @@ func Run(seed int64, tier string) *report.Result {
 	})
 	_ = r
 	res.Distinct = exCount + dist.N()
-	res.Rule = fmt.Sprintf("exhaustive: every history of 1..%d operations over a %d-letter alphabet (AddAlias/AddStruct/RemoveNode on 3 keys, AddEdge/RemoveEdge(kind|nil) on all 9 ordered pairs x 2 kinds, one file-version bump), final state compared (every prefix is itself enumerated); random: %d histories of 1..60 operations over 6 keys in 2 files x 2+ versions, 4 edge kinds, all typed adders, full read-back (Exists/Get/GetEdges/Children/Parents/Descendants/FindByKind on all 8 keys) after every operation. distinct = enumerated histories are distinct by construction + distinct random histories by content", maxLen, len(alpha), nRandom)
+	res.Rule = fmt.Sprintf("exhaustive: every history of 1..%d operations over a %d-letter alphabet (AddAlias/AddStruct/RemoveNode on 3 keys, AddEdge/RemoveEdge(kind|nil) on all 9 ordered pairs x 2 kinds (ty and typaram: one is a textual prefix of the other), one file-version bump), final state compared (every prefix is itself enumerated); random: %d histories of 1..60 operations over 6 keys in 2 files x 2+ versions, all 15 declared edge kinds, all typed adders, full read-back (Exists/Get/GetEdges/Children/Parents/Descendants/FindByKind on all 8 keys) after every operation. distinct = enumerated histories are distinct by construction + distinct random histories by content", maxLen, len(alpha), nRandom)
 	res.Extra("exhaustive_part", map[string]any{"histories": exCount, "max_len": maxLen, "alphabet": len(alpha)})
 	res.Extra("random_part", map[string]any{"histories": nRandom, "ops_by_kind": opCount})
 	res.Extra("violations_not_shrunk", rs.suppressed)
